@@ -283,5 +283,28 @@ PLAN = {
     ),
 }
 
+# additions of round 5 (DESIGN 9.13), appended to the rules above
+RULE_EXTRA = {
+    "C01": "Between mutating the item and reading the cell every read-only accessor and formatter runs (%v, %s, %#v of the cell, its row and the table, Lines/Height/TerminalCellWidth/Item, NewCell(cell), Errors()). Numeric items also of the dynamic types float32, int64, uint64, int8, uint16, complex64 with non-dyadic and extreme values; declared sizes may be negative.",
+    "C02": "Histories contain bursts: 2-3 rows made back to back (AppendNewRow, NewRow, NewRowSizedFor) and then grown in turns beyond the width the table had when they were made.",
+    "C03": "Declared widths and heights may be negative (read as none); bursts of sibling rows grown in turns.",
+    "C04": "A quarter of the cases carry a property history on the columns (alignment, skipable and five user keys of different types, re-set and removed, three columns incl. column 0) applied after Align; declared widths and heights may be negative.",
+    "C05": "Fields also drawn at 16 and 32 KiB (sparingly) and as 'expanding' strings: 16..256 bytes long with a quote, comma, CRLF or LF every 1/2/3/8 positions or once at the end; bursts of sibling AppendNewRow rows grown in turns.",
+    "C06": "Cell texts are now and then 16..256 bytes dense with characters that become entities.",
+    "C07": "Items also of the dynamic types float32, int64, uint64, int8, uint16, complex64 (non-dyadic and extreme values); items may be mutated and the cell updated (empty to non-empty and back); texts dense with characters that need escaping.",
+    "C08": "A third of the cases carry a property history on the columns (several keys per column, re-set and removed) after Align: the delimiter row follows the alignment each column ends up with; texts dense with pipes, ampersands, angle brackets, backslashes.",
+    "C09": "A tenth of the items are 16..256-byte strings dense with a character some renderer has to escape (quote, <, &, |, backslash, LF, control, U+2028, apostrophe, non-BMP).",
+    "C10": "The creating wrapper's own Render runs first, before any other wrapper exists; a quarter of the cases carry a column property history; job 'shadow' repeats the search in a process where decorations were registered under the names csv, html, json, markdown, texttable, CSV and Json.",
+    "C12": "Values stored are unique ints, or fresh pointers / maps / structs-with-slices of constant contents (told apart by identity only), or arrays holding the key; cells alternate between plain strings and mutable items, and Update may follow a change of the item's text (other text, no text).",
+    "C13": "A quarter of the registered callbacks (and the first of every pair in the exhaustive matrix) do their work and then report an error: no other callback may be skipped for it. The stand-alone seed cell carries 1..9 callbacks before it is copied into two rows and each copy gets one more. Column 0's itself-slots (pre-cell and post-cell) are specified like any column's.",
+    "C15": "Writer error values: a private error, io.EOF, io.ErrShortWrite, io.ErrClosedPipe, a PathError over EPIPE, a %w chain, an error whose Unwrap() gives nil, os.ErrDeadlineExceeded, context.Canceled.",
+    "C16": "A third of the cases start from a prototype cell carrying 1..9 render callbacks: every goroutine adds a by-value copy to its own table and registers one more callback (which sets an alignment of its own table) on its own copy; optionally the goroutines wait for each other between building and rendering; 0..8 application decorations are registered first and a third of the goroutines take auto.ListStyles and RegisteredDecorationNames as part of their results. Job 'sizes' walks the registry through the sizes 6..40 with four such goroutines and a registry reader at each size.",
+    "C17": "Sequential histories also register the empty decoration under a name (the latest registration wins, the name is listed, a table set to it refuses to render). Unknown names include look-alikes of every built-in: 'texttable.'+name, name+'.x', padded, upper-cased, capitalised, truncated, doubled, 'decoration.'+name, 'auto.'+name.",
+    "C19": "Names may begin or end with blanks and tabs or hold inner blanks; sub-package and built-in names padded with blanks must resolve as unknown; a wrapper made by auto.Wrap(t, style) is rendered only after five other styles (text, unknown, csv) have been wrapped around, and half of the time rendered on, the same table.",
+}
+
 # properties deliberately not claimed, with the reason (empty: the technique applies to all 19)
 NOT_APPLICABLE = {}
+
+for _pid, _extra in RULE_EXTRA.items():
+    PLAN[_pid]["rule"] = PLAN[_pid]["rule"] + " Round 5: " + _extra
